@@ -1,43 +1,37 @@
 (* C11 — concurrent starts never double-apply.
    Pinned statements only.  Model: Model/Locking.v (any number of instances, arbitrary schedule at
    connection-call granularity) over the SQLite file-lock rules of Model/Sqlite.v with busy_timeout = 0.
-   The theorems carry [versions_u32 ms] (the Rust type of the version field; the former restriction to
-   versions < 2^31 is gone with fix 3924c60) and [id_conflict ms d = false]: they are named _partial because
-   the case of a database whose recorded ids conflict with the compiled ones — where every instance returns
-   IdMismatch without executing anything (C09_id_mismatch_reported) — is not carried through the
-   interleaving invariant. *)
-From VV.MIG Require Import Spec SeqP ConcP TermP.
-
-Definition C11_at_most_once_full_statement : Prop := forall o ms k d n sched,
-  ascending ms = true -> versions_u32 ms = true -> at_version k d = true ->
-  let c := s_db (steps o ms sched (init_sys n d)) in
-  c = d \/ c = sql_create_vt d \/ c = bootstrap d \/ c = fst (run [] o ms d).
+   Hypotheses: [ascending ms] (loader order, distinct versions), [versions_u32 ms] (the Rust type of the
+   version field), [at_version k d] (a database recorded at version k).  No hypothesis on the recorded ids
+   any more: the case of an id that conflicts with the compiled one is carried through the invariant
+   (then nothing is ever committed and nobody returns Ok, C11_conflict_blocks_everyone). *)
+From VV.MIG Require Import Spec SeqP ShapeP ConcP TermP SoloP.
 
 (* for any number n of instances and any schedule: the committed database is the original one (up to the
    bookkeeping table) or exactly the result of ONE sequential run *)
-Theorem C11_at_most_once_partial : forall o ms k d n sched,
-  ascending ms = true -> versions_u32 ms = true -> at_version k d = true -> id_conflict ms d = false ->
+Theorem C11_at_most_once : forall o ms k d n sched,
+  ascending ms = true -> versions_u32 ms = true -> at_version k d = true ->
   let c := s_db (steps o ms sched (init_sys n d)) in
   c = d \/ c = sql_create_vt d \/ c = bootstrap d \/ c = fst (run [] o ms d).
 Proof. exact at_most_once. Qed.
-Print Assumptions C11_at_most_once_partial.
-Check C11_at_most_once_partial : forall o ms k d n sched,
-  ascending ms = true -> versions_u32 ms = true -> at_version k d = true -> id_conflict ms d = false ->
+Print Assumptions C11_at_most_once.
+Check C11_at_most_once : forall o ms k d n sched,
+  ascending ms = true -> versions_u32 ms = true -> at_version k d = true ->
   let c := s_db (steps o ms sched (init_sys n d)) in
   c = d \/ c = sql_create_vt d \/ c = bootstrap d \/ c = fst (run [] o ms d).
 
 (* spelled out: each pending migration's statements and its version row are committed zero times or
    exactly once, all together and in order *)
-Theorem C11_committed_once_partial : forall o ms k d n sched,
-  ascending ms = true -> versions_u32 ms = true -> at_version k d = true -> id_conflict ms d = false ->
+Theorem C11_committed_once : forall o ms k d n sched,
+  ascending ms = true -> versions_u32 ms = true -> at_version k d = true ->
   let c := s_db (steps o ms sched (init_sys n d)) in
   exists l, (l = [] \/ l = pending k ms) /\
     d_applied c = d_applied d ++ stmts_all o l /\
     recorded_versions c = recorded_versions d ++ map (fun m => Z.of_N (m_version m)) l.
 Proof. exact committed_once. Qed.
-Print Assumptions C11_committed_once_partial.
-Check C11_committed_once_partial : forall o ms k d n sched,
-  ascending ms = true -> versions_u32 ms = true -> at_version k d = true -> id_conflict ms d = false ->
+Print Assumptions C11_committed_once.
+Check C11_committed_once : forall o ms k d n sched,
+  ascending ms = true -> versions_u32 ms = true -> at_version k d = true ->
   let c := s_db (steps o ms sched (init_sys n d)) in
   exists l, (l = [] \/ l = pending k ms) /\
     d_applied c = d_applied d ++ stmts_all o l /\
@@ -45,17 +39,17 @@ Check C11_committed_once_partial : forall o ms k d n sched,
 
 (* every instance, at any moment: finished with Ok or Err, holding no lock and no open transaction view;
    or still running and able to take its next step (never stuck) *)
-Theorem C11_each_instance_ok_or_err_partial : forall o ms k d n sched p,
-  ascending ms = true -> versions_u32 ms = true -> at_version k d = true -> id_conflict ms d = false ->
+Theorem C11_each_instance_ok_or_err : forall o ms k d n sched p,
+  ascending ms = true -> versions_u32 ms = true -> at_version k d = true ->
   In p (s_insts (steps o ms sched (init_sys n d))) ->
   match i_res (p_inst p) with
   | Some r => (r = ROk \/ exists e, r = RErr e) /\ i_lock (p_inst p) = Unlocked /\ i_buf (p_inst p) = None
   | None => p_todo p <> []
   end.
 Proof. exact each_instance_ok_or_err. Qed.
-Print Assumptions C11_each_instance_ok_or_err_partial.
-Check C11_each_instance_ok_or_err_partial : forall o ms k d n sched p,
-  ascending ms = true -> versions_u32 ms = true -> at_version k d = true -> id_conflict ms d = false ->
+Print Assumptions C11_each_instance_ok_or_err.
+Check C11_each_instance_ok_or_err : forall o ms k d n sched p,
+  ascending ms = true -> versions_u32 ms = true -> at_version k d = true ->
   In p (s_insts (steps o ms sched (init_sys n d))) ->
   match i_res (p_inst p) with
   | Some r => (r = ROk \/ exists e, r = RErr e) /\ i_lock (p_inst p) = Unlocked /\ i_buf (p_inst p) = None
@@ -65,29 +59,67 @@ Check C11_each_instance_ok_or_err_partial : forall o ms k d n sched p,
 (* ... and it does return: after steps_bound = 5 + (1 + sum over migrations of (statements + 1)) of its own
    scheduler steps an instance has finished, whatever the other instances do in between (no hang, no
    unbounded retry inside the generated code) *)
-Theorem C11_instance_terminates_partial : forall o ms k d n sched pid,
-  ascending ms = true -> versions_u32 ms = true -> at_version k d = true -> id_conflict ms d = false ->
+Theorem C11_instance_terminates : forall o ms k d n sched pid,
+  ascending ms = true -> versions_u32 ms = true -> at_version k d = true ->
   pid < n -> steps_bound o ms <= count_occ Nat.eq_dec sched pid ->
   exists p, nth_error (s_insts (steps o ms sched (init_sys n d))) pid = Some p /\ finished p = true.
 Proof. exact instance_terminates. Qed.
-Print Assumptions C11_instance_terminates_partial.
-Check C11_instance_terminates_partial : forall o ms k d n sched pid,
-  ascending ms = true -> versions_u32 ms = true -> at_version k d = true -> id_conflict ms d = false ->
+Print Assumptions C11_instance_terminates.
+Check C11_instance_terminates : forall o ms k d n sched pid,
+  ascending ms = true -> versions_u32 ms = true -> at_version k d = true ->
   pid < n -> steps_bound o ms <= count_occ Nat.eq_dec sched pid ->
   exists p, nth_error (s_insts (steps o ms sched (init_sys n d))) pid = Some p /\ finished p = true.
 
 (* once all have finished, re-running (any loser, any number >= 1 of times, one after the other) ends in
    the database of one sequential run *)
-Theorem C11_retry_converges_partial : forall o ms k d n sched retries,
-  ascending ms = true -> versions_u32 ms = true -> at_version k d = true -> id_conflict ms d = false ->
+Theorem C11_retry_converges : forall o ms k d n sched retries,
+  ascending ms = true -> versions_u32 ms = true -> at_version k d = true ->
   all_finished (steps o ms sched (init_sys n d)) = true ->
   Nat.iter (S retries) (fun c => fst (run [] o ms c)) (s_db (steps o ms sched (init_sys n d))) = fst (run [] o ms d).
 Proof. exact retry_converges. Qed.
-Print Assumptions C11_retry_converges_partial.
-Check C11_retry_converges_partial : forall o ms k d n sched retries,
-  ascending ms = true -> versions_u32 ms = true -> at_version k d = true -> id_conflict ms d = false ->
+Print Assumptions C11_retry_converges.
+Check C11_retry_converges : forall o ms k d n sched retries,
+  ascending ms = true -> versions_u32 ms = true -> at_version k d = true ->
   all_finished (steps o ms sched (init_sys n d)) = true ->
   Nat.iter (S retries) (fun c => fst (run [] o ms c)) (s_db (steps o ms sched (init_sys n d))) = fst (run [] o ms d).
+
+(* the link to the sequential semantics: ONE instance, scheduled at least steps_bound times, ends with exactly
+   the committed database, result and call log of [run], for every fault set — so the theorems above
+   specialise to C09 / C10, and the [run] in C11_retry_converges is what a lone retry does in the system *)
+Theorem C11_steps_single_is_run : forall F o ms d n,
+  steps_bound o ms <= n ->
+  let s := steps o ms (repeat 0 n) (init_sys_faults [F] d) in
+  s_db s = fst (run F o ms d) /\ map p_inst (s_insts s) = [snd (run F o ms d)].
+Proof. exact steps_single_is_run. Qed.
+Print Assumptions C11_steps_single_is_run.
+Check C11_steps_single_is_run : forall F o ms d n,
+  steps_bound o ms <= n ->
+  let s := steps o ms (repeat 0 n) (init_sys_faults [F] d) in
+  s_db s = fst (run F o ms d) /\ map p_inst (s_insts s) = [snd (run F o ms d)].
+
+(* a recorded id that makes some comparison of lib.rs:153/198 fail ([ids_ok ms d = false]; implied by
+   [id_conflict ms d = true] on a table with distinct versions, C09_id_mismatch_reported): whatever the
+   schedule and the number of instances, nothing is committed and no instance returns Ok *)
+Theorem C11_conflict_blocks_everyone : forall o ms k d n sched,
+  ascending ms = true -> versions_u32 ms = true -> at_version k d = true -> ids_ok ms d = false ->
+  let s := steps o ms sched (init_sys n d) in
+  (s_db s = d \/ s_db s = sql_create_vt d \/ s_db s = bootstrap d) /\
+  forall p, In p (s_insts s) -> i_res (p_inst p) <> Some ROk.
+Proof. exact conflict_blocks_everyone. Qed.
+Print Assumptions C11_conflict_blocks_everyone.
+Check C11_conflict_blocks_everyone : forall o ms k d n sched,
+  ascending ms = true -> versions_u32 ms = true -> at_version k d = true -> ids_ok ms d = false ->
+  let s := steps o ms sched (init_sys n d) in
+  (s_db s = d \/ s_db s = sql_create_vt d \/ s_db s = bootstrap d) /\
+  forall p, In p (s_insts s) -> i_res (p_inst p) <> Some ROk.
+
+(* the verbose flag changes nothing under contention either *)
+Theorem C11_verbose_same_steps : forall b p vt ms sched s,
+  steps (mkOpts b p vt true) ms sched s = steps (mkOpts b p vt false) ms sched s.
+Proof. exact verbose_same_steps. Qed.
+Print Assumptions C11_verbose_same_steps.
+Check C11_verbose_same_steps : forall b p vt ms sched s,
+  steps (mkOpts b p vt true) ms sched s = steps (mkOpts b p vt false) ms sched s.
 
 (* non-vacuity: three instances on a fresh database; under one schedule the first wins and the others get
    Busy, under another a reader blocks the writer's COMMIT and a later instance does the work; under a
@@ -97,7 +129,7 @@ Definition ex_ms : list mig :=
 Definition ex_o : opts := mkOpts Sqlite "" None false.
 Definition alt3 : list nat := List.concat (repeat [0; 1; 2] 12).
 Example C11_nonvacuous :
-  ascending ex_ms = true /\ versions_u32 ex_ms = true /\ at_version 0 (mkDb None []) = true /\ id_conflict ex_ms (mkDb None []) = false /\
+  ascending ex_ms = true /\ versions_u32 ex_ms = true /\ at_version 0 (mkDb None []) = true /\
   (let s := steps ex_o ex_ms alt3 (init_sys 3 (mkDb None [])) in
    all_finished s = true /\ s_db s = fst (run [] ex_o ex_ms (mkDb None [])) /\
    map (fun p => i_res (p_inst p)) (s_insts s) = [Some ROk; Some (RErr DatabaseError); Some (RErr DatabaseError)]) /\
@@ -106,4 +138,20 @@ Example C11_nonvacuous :
    s_db s = fst (run [] ex_o ex_ms (mkDb None []))) /\
   (let s := steps ex_o ex_ms [0;1;0;1;0;1;0;1;0;1;0;0] (init_sys 2 (mkDb None [])) in
    all_finished s = false /\ s_db s = sql_create_vt (mkDb None [])).
+Proof. vm_compute. repeat split. Qed.
+
+(* non-vacuity of the conflict theorem: a foreign id on version 1, two instances alternating: both return
+   IdMismatch, nothing is committed *)
+Definition cf_d : dbstate := mkDb (Some (mkVt true [(1%Z, "someone-else")])) ["CREATE TABLE t (a)"].
+Example C11_conflict_nonvacuous :
+  at_version 1 cf_d = true /\ ids_ok ex_ms cf_d = false /\
+  (let s := steps ex_o ex_ms (List.concat (repeat [0; 1] 8)) (init_sys 2 cf_d) in
+   s_db s = cf_d /\
+   map (fun p => i_res (p_inst p)) (s_insts s) =
+     [Some (RErr (IdMismatch 1 "a" "someone-else")); Some (RErr (IdMismatch 1 "a" "someone-else"))]).
+Proof. vm_compute. repeat split. Qed.
+Example C11_single_nonvacuous :
+  steps_bound ex_o ex_ms = 11 /\
+  (let s := steps ex_o ex_ms (repeat 0 11) (init_sys_faults [[6]] (mkDb None [])) in
+   map (fun p => i_res (p_inst p)) (s_insts s) = [Some (RErr DatabaseError)] /\ s_db s = fst (run [6] ex_o ex_ms (mkDb None []))).
 Proof. vm_compute. repeat split. Qed.
